@@ -293,6 +293,18 @@ pub fn run() {
         }
         check_circuit("swap-heavy", i, &circ);
     });
+    // wide and shallow: 7-8 qubits (qubit indices and output slots beyond what the other
+    // families reach; 2^16-entry tensors, so only a few of them)
+    par_cases("wide-shallow", t.pick(40usize, 1_500usize), move |r, i| {
+        let mut p = CircParams::unitary(8, 14, PhPool::Exact);
+        p.min_qubits = 7;
+        p.ccz = false;
+        p.pp = r.chance(0.3);
+        p.ancilla = r.chance(0.4);
+        let circ = gen_circuit(r, &p);
+        let circ = interleave(r, &circ);
+        check_circuit("wide-shallow", i, &circ);
+    });
     par_cases("ccz-toffoli", n / 4, move |r, i| {
         let mut p = CircParams::unitary(nq.max(3), 8, PhPool::Exact);
         p.min_qubits = 3;
